@@ -281,6 +281,24 @@ def isSortedBy (ks : List (Row → Val)) (X : List Row) : Bool :=
   let keys := X.map (keyOf ks)
   (keys.zip (keys.drop 1)).all (fun (a, b) => rowCmp a b != .gt)
 
+/-- The four readings of a correlated scalar aggregate subquery (`applyagg` node of the generator's
+logical plans).  `sql` is the spec (`applyScalarAgg` / `applyGroupAgg`); the other three are what the
+decorrelating rules `pushdown-apply-scalar-agg` / `-group-agg` make of it, mechanism by mechanism:
+`countbug`: an outer row without partner is aggregated over its NULL-padded left-outer-join row
+(COUNT(*) = 1; `m` of them when the row occurs `m` times and is collapsed); `collapse`: the outer row is the GROUP BY key, so `m` identical outer rows become one
+output row whose aggregate sees every partner `m` times; `both` = the decorrelated plan. -/
+def applyAggRows (mode : String) (gb : Bool) (kind : AggKind) (arg : Row → Val) (corr : Pred) (nR : Nat)
+    (L R : List Row) : List Row :=
+  let value (l : Row) (mult : Nat) (padded : Bool) : Val :=
+    let ms := (matchesOf corr l R).map (l ++ ·)
+    if ms.isEmpty then
+      (if gb then .null else if padded then aggVal kind ((List.replicate mult (l ++ nulls nR)).map arg) else aggVal kind [])
+    else aggVal kind (((List.replicate mult ms).flatten).map arg)
+  let padded := mode == "countbug" || mode == "both"
+  if mode == "collapse" || mode == "both" then
+    (dedup L).map (fun l => l ++ [value l (L.filter (· == l)).length padded])
+  else L.map (fun l => l ++ [value l 1 padded])
+
 /-- The interpreter.  `spec = true`: L1 operators on the flattened input (one output chunk). -/
 def runPlan (tables : List Table) (spec : Bool) : Nat → Sexp → Except String POut
   | 0, _ => .error "fuel"
@@ -355,6 +373,19 @@ def runPlan (tables : List Table) (spec : Bool) : Nat → Sexp → Except String
       | .error e, _, _ => .error e
       | _, .error e, _ => .error e
       | _, _, _ => .error "bad join"
+    | .list [.atom "applyagg", .atom mode, .atom gbs, ag, corr, l, r] =>
+      -- logical plans only (both modes read it with the L1 definitions)
+      match runPlan tables spec fuel l, runPlan tables spec fuel r, aggKindOf ag with
+      | .ok lo, .ok ro, some (kind, argE) =>
+        let sch := lo.schema ++ ro.schema
+        let L := flat lo.chunks
+        let R := flat ro.chunks
+        let rows := applyAggRows mode (gbs == "1") kind (mkFn sch argE) (mkPred sch corr) ro.schema.length L R
+        .ok { schema := lo.schema ++ [ag], types := lo.types ++ [typeOfE exprFuel sch (lo.types ++ ro.types) ag],
+              chunks := [rows], tags := lo.tags ++ ro.tags, unsupported := lo.unsupported <|> ro.unsupported }
+      | .error e, _, _ => .error e
+      | _, .error e, _ => .error e
+      | _, _, _ => .error "bad applyagg"
     | .list [.atom h, jt, cond, lks, rks, l, r] =>
       if h != "hashjoin" && h != "mergejoin" then .error ("unknown node " ++ h) else
       match runPlan tables spec fuel l, runPlan tables spec fuel r, joinTypeOf jt with
